@@ -28,7 +28,7 @@ from ..oracles import tian_scm as S
 
 PROP = "C17"
 RULE = ("STRUCTURED: districts grown to a prescribed IDENTIFY recursion depth 0-3 (4 in the thorough tier) with outside "
-        "parents Z / descendants, every form of Q[T] (P(T|Z), P(T|Pa), PP, P[Z](T), P[V\\T](T), mixed, redundant "
+        "parents Z / descendants (and, in an appended stream, outside MEDIATORS t1 -> m -> t2 so that T is not a block of any topological order), every form of Q[T] (P(T|Z), P(T|Pa), PP, P[Z](T), P[V\\T](T), mixed, redundant "
         "children, Lemma-1 product, Lemma-4 ratios, top-level Fraction P(T,Z)/P(Z), Sum over descendants), all (<= 4/8 "
         "sampled) linear extensions; direct calls of the five c-factor routines on V, ancestral sets and the recursion's "
         "own (A, Q[A]) for every district, every expression form and orders chosen among all linear extensions (one "
@@ -460,7 +460,7 @@ def _eval_cost(V, di, bi):
     return tot + 4 ** len(V)
 
 
-def _structured_graph(rng, depth, nz, nd):
+def _structured_graph(rng, depth, nz, nd, nm=0):
     """(g, T, C, depth, verdict) in integer space: a district T grown to the wanted recursion depth, nz outside
     parents Z (no bidirected edge into T, so T stays a district of G) and nd descendants outside T"""
     for _ in range(50):
@@ -498,6 +498,20 @@ def _structured_graph(rng, depth, nz, nd):
             di.append((rng.choice(T), d))
             if Z and rng.random() < 0.4:
                 di.append((rng.choice(Z), d))
+        # outside MEDIATORS (gap review round 5): t1 -> m -> t2 with m outside T, so that T is not a block of any
+        # topological order (G_T and the IDENTIFY trace are unchanged; only the expressions that denote Q[T] change)
+        Mds = []
+        for _ in range(min(nm, max(0, room - nz - nd))):
+            m = n + nz + nd + len(Mds)
+            pairs = [(a, b) for a in T for b in T if a != b
+                     and S.is_acyclic(T + Z + D + Mds + [m], di + [(a, m), (m, b)])]
+            if not pairs:
+                break
+            a, b = rng.choice(pairs)
+            di += [(a, m), (m, b)]
+            Mds.append(m)
+        D = D + Mds
+        nd = len(D)
         # names: Z first (lowest integers = alphabetically first) half of the time, otherwise any injection
         total = n + nz + nd
         if rng.random() < 0.5:
@@ -521,7 +535,7 @@ def _structured_graph(rng, depth, nz, nd):
     return None
 
 
-def _gen_recursion(rng, tier, plan):
+def _gen_recursion(rng, tier, plan, nm=0):
     """IDENTIFY cases with a prescribed recursion depth, every form of Q[T], several (all, when few) topological
     orders.  plan: list of (depth, number of graphs)."""
     out = []
@@ -531,7 +545,7 @@ def _gen_recursion(rng, tier, plan):
             nd = rng.choice([0, 1])
             if depth >= 3:
                 nz, nd = rng.choice([0, 1]), 0
-            sg = _structured_graph(rng, depth, nz, nd)
+            sg = _structured_graph(rng, depth, nz, nd, nm) if nm else _structured_graph(rng, depth, nz, nd)
             if sg is None:
                 continue
             g, T, Cs0, _, _ = sg
@@ -560,7 +574,7 @@ def _gen_recursion(rng, tier, plan):
                         topo = list(topo)
                         if rng.random() < 0.1:
                             topo.insert(rng.randrange(len(topo) + 1), 95)
-                        out.append(dict(base, op="identify", C=Cs, T=T, topo=topo, q=q, qkind="S_" + kind))
+                        out.append(dict(base, op="identify", C=Cs, T=T, topo=topo, q=q, qkind=("Sm_" if nm else "S_") + kind))
             # the intermediate objects of the recursion, called directly: (A, Q[A]) -> Q[T'] for every district of G_A
             steps, _ = identify_trace(di, bi, Cs0, T)
             for (Tk, Ak, Tpk) in steps[:1]:
@@ -834,6 +848,7 @@ def cases(rng: random.Random, tier: str):
         out += _gen_valid(rng, tier, 110, 5)
         out += _gen_malformed(rng, 400)
         out += _gen_starred(rng, tier, 25)
+        out += _gen_recursion(rng, tier, [(1, 14), (2, 8)], nm=1)      # district with an outside mediator (appended)
     else:
         out += _gen_recursion(rng, tier, [(0, 20), (1, 120), (2, 80), (3, 30), (4, 6)])
         out += _gen_cfactor(rng, tier, 200)
@@ -842,6 +857,8 @@ def cases(rng: random.Random, tier: str):
         out += _gen_valid(rng, tier, 300, 6)
         out += _gen_malformed(rng, 3000)
         out += _gen_starred(rng, tier, 150)
+        out += _gen_recursion(rng, tier, [(1, 80), (2, 50), (3, 12)], nm=1)
+        out += _gen_recursion(rng, tier, [(1, 30), (2, 20)], nm=2)
     return out
 
 
